@@ -20,9 +20,8 @@ namespace Scales.TagPool
 /-- **Specification level.**  The executable `spec` (the C11 clauses and the `own-reply` clause)
     holds of every history of the model. -/
 theorem C02_mux_model_satisfies_spec (cfg : Cfg) (ops : List Op) (hc : cfgWF cfg = true)
-    (ho : opsOk cfg St.init ops = true) : spec cfg (comp.modelTrace cfg ops) = .ok := by
-  simp only [cfgWF, decide_eq_true_eq] at hc
-  exact spec_trace cfg hc ops {} St.init 0 (Inv_init cfg hc) ho
+    (ho : opsOk cfg (initSt cfg) ops = true) : spec cfg (comp.modelTrace cfg ops) = .ok := by
+  exact spec_trace cfg (wf_max hc) ops (Acc.init cfg) (initSt cfg) 0 (Inv_init cfg hc) ho
 
 /-- **Step level.**  `_ProcessReply` hands a frame to a request exactly when the frame is not
     the ping answer, its tag is not 0 and `_tag_map` holds that request under the frame's tag;
@@ -127,19 +126,20 @@ theorem C02_mux_only_process_delivers (fl : Flavour) (max : Nat) (s : St) (op : 
     simp only [stepOp, stepQuiet]
     split <;> rfl
 
-/-- **History level.**  For every pool size ≥ 2 and every legal sequence of transport steps:
+/-- **History level.**  For every pool size ≥ 2, every well-formed starting pool (a connection of any
+    age, tags of all three byte lengths: `cfgWF`) and every legal sequence of transport steps:
     whenever a step processing a peer frame on tag `t` delivers to request `rid`, and a request
     frame carrying `t` was written on this connection and has not been answered since, that
     frame is the frame of request `rid` — the reply goes to the request the peer received
     under that tag, never to another call. -/
 theorem C02_mux_own_reply (cfg : Cfg) (ops : List Op) (hc : cfgWF cfg = true)
-    (ho : opsOk cfg St.init ops = true) (h1 h2 : List (Op × Obs)) (mt : Int) (t : Nat) (o : Obs)
+    (ho : opsOk cfg (initSt cfg) ops = true) (h1 h2 : List (Op × Obs)) (mt : Int) (t : Nat) (o : Obs)
     (htr : comp.modelTrace cfg ops = h1 ++ (.process mt t, o) :: h2)
-    (rid : Nat) (hd : rid ∈ o.delivered) (rid' : Nat) (hw : (t, rid') ∈ unansweredPairs h1) :
+    (rid : Nat) (hd : rid ∈ o.delivered) (rid' : Nat) (hw : (t, rid') ∈ unansweredPairs cfg h1) :
     rid' = rid := by
   have hs := C02_mux_model_satisfies_spec cfg ops hc ho
   rw [htr] at hs
-  have := specGo_split cfg h1 {} 0 (.process mt t) o h2 hs
+  have := specGo_split cfg h1 (Acc.init cfg) 0 (.process mt t) o h2 hs
   obtain ⟨_, _, _, _, _, hor⟩ := (specObs_ok_iff cfg _ _ _ o).mp this
   simp only [ownReplyBad, List.find?_eq_none, List.mem_filter, beq_iff_eq, List.any_eq_true, bne_iff_ne,
     ne_eq, not_exists, not_and, Decidable.not_not, and_imp] at hor
@@ -149,22 +149,37 @@ theorem C02_mux_own_reply (cfg : Cfg) (ops : List Op) (hc : cfgWF cfg = true)
     `(t, rid)` unanswered ⇒ `_tag_map[t]` is request `rid` (so `C02_mux_delivery_via_tagmap`
     delivers the next frame on `t` to `rid`) -/
 theorem C02_mux_unanswered_owner_in_tagmap (cfg : Cfg) (ops : List Op) (hc : cfgWF cfg = true)
-    (ho : opsOk cfg St.init ops = true) (t rid : Nat)
-    (hw : (t, rid) ∈ unansweredPairs (comp.modelTrace cfg ops)) :
+    (ho : opsOk cfg (initSt cfg) ops = true) (t rid : Nat)
+    (hw : (t, rid) ∈ unansweredPairs cfg (comp.modelTrace cfg ops)) :
     tmLookup t (reach cfg ops).tagmap = some rid := by
-  simp only [cfgWF, decide_eq_true_eq] at hc
-  exact (Inv_trace cfg hc ops {} St.init (Inv_init cfg hc) ho).own (t, rid) hw
+  exact (Inv_trace cfg (wf_max hc) ops (Acc.init cfg) (initSt cfg) (Inv_init cfg hc) ho).own (t, rid) hw
 
 /-! a concrete history: three requests written, answered out of order, one answered twice, one
     frame on an unknown tag — each delivery reaches the request that owns the tag -/
-example : (comp.modelTrace ⟨2 ^ 24 - 1, .thriftmux⟩
+example : (comp.modelTrace { max := 2 ^ 24 - 1, fl := .thriftmux }
       [.req .noev 0, .req .noev 0, .req .noev 0, .send, .send, .send,
        .process (-2) 4, .process (-2) 2, .process (-2) 2, .process (-2) 9, .process (-2) 3]).map
       (fun p => p.2.delivered) = [[], [], [], [], [], [], [2], [0], [], [], [1]] := by decide
 
-example : comp.wf ⟨2 ^ 24 - 1, .thriftmux⟩
+example : comp.wf { max := 2 ^ 24 - 1, fl := .thriftmux }
       [.req .noev 0, .req .noev 0, .req .noev 0, .send, .send, .send,
        .process (-2) 4, .process (-2) 2, .process (-2) 2, .process (-2) 9, .process (-2) 3] = true := by decide
+
+/-! an aged connection: tags 256, 65792 (= 2^16 + 256), 2, 258, 65538 in flight together — they agree
+    in two of their three bytes; replies in another order, one for a tag held since before the
+    script (65537), one for a tag that differs from a tag in flight in the high byte only (131074) -/
+example : (comp.modelTrace { max := 2 ^ 24 - 1, fl := .thriftmux, next := 131075, free := [256, 65792, 2, 258, 65538] }
+      [.req .noev 256, .req .noev 65792, .req .noev 2, .req .noev 258, .req .noev 65538,
+       .send, .send, .send, .send, .send,
+       .process (-2) 65792, .process (-2) 65537, .process (-2) 131074, .process (-2) 2, .process (-2) 65538,
+       .process (-2) 256, .process (-2) 258]).map
+      (fun p => p.2.delivered) = [[], [], [], [], [], [], [], [], [], [], [1], [], [], [2], [4], [0], [3]] := by decide
+
+example : comp.wf { max := 2 ^ 24 - 1, fl := .thriftmux, next := 131075, free := [256, 65792, 2, 258, 65538] }
+      [.req .noev 256, .req .noev 65792, .req .noev 2, .req .noev 258, .req .noev 65538,
+       .send, .send, .send, .send, .send,
+       .process (-2) 65792, .process (-2) 65537, .process (-2) 131074, .process (-2) 2, .process (-2) 65538,
+       .process (-2) 256, .process (-2) 258] = true := by decide
 
 /-! ### serial connections
 
